@@ -20,6 +20,8 @@ def run(tier):
     q = c.quick()
     u = tm.unit_ms(c)
 
+    runs = tm.Runs(c)
+    runs.defaults_early()               # the package as it comes up, judged while the host is still quiet
     # ---- pass A: model checking
     emit_cf = tm.impl_consts(3, "D_n013", 2, 2)
     jobs = [lambda: tm.impl_check(c, "TimerImpl-emit", emit_cf, emit=True, workers=6, timeout=1500),
@@ -38,7 +40,6 @@ def run(tier):
     c.extra["distinct_impl_scripts"] = len(impl_scripts)
 
     # ---- pass B: timed executions, one script at a time per process
-    runs = tm.Runs(c)
     base = {"unit_ms": u, "late": 1, "idlecheck": 1, "restart": 1, "sample": 1, "conc": 1}
     fam = tm.pattern_family(4, 2, 2)
     runs.scripts(fam, "pat-w2", dict(base, maxw=2, idle_ms=2 * u, stretch=50))
